@@ -65,3 +65,38 @@ Definition judge (k : case) : Z :=
         else 1
       else if k_go_accepts k then 2 else 6
   end.
+
+(* ---------------------------------------------------------------------------------
+   Added after seeding: programs with UNDECLARED predicates (model Analysis/BoundsInfer.v).
+   The schedule is the order in which BoundsCheck reaches the undeclared predicates
+   (computed by checks/c11.py from the sorted predicate symbols and the clause texts):
+   (predicate, arity, reached first by BoundsCheck's own loop?). *)
+From MV Require Export Analysis.BoundsInfer.
+
+Record case_inf := mkCaseInf {
+  ki_decls : decls;
+  ki_rules : list clause;
+  ki_init : list fact;
+  ki_sched : list (Z * Z * bool);
+  ki_go_accepts : bool;
+  ki_go_sound : bool
+}.
+
+(* codes as for `judge`; 0 = accepted by both, the inferred relation types taken as
+   declarations certify the whole program (fragment of bounds_sound_inferred_partial), and
+   Go's stored facts conform *)
+Definition judge_inf (k : case_inf) : Z :=
+  match check_program_inf (ki_decls k) (ki_rules k) (ki_init k) (ki_sched k) with
+  | Unsupported => 10
+  | Fuel => 11
+  | Ok ((v, oE), _) =>
+      if v then
+        if ki_go_accepts k then
+          match oE with
+          | Some E => if certified E (ki_rules k) (ki_init k)
+                      then (if ki_go_sound k then 0 else 3) else 5
+          | None => 5
+          end
+        else 1
+      else if ki_go_accepts k then 2 else 6
+  end.
